@@ -15,6 +15,8 @@ from pathlib import Path
 
 import numpy as np
 
+from hyverif.core import present
+
 ID = "C13"
 SHARDS = {"quick": 8, "thorough": 16}
 BUDGET = {"quick": 300, "thorough": 1800}
@@ -39,7 +41,7 @@ OBLIGATIONS = {"dtype:int": 40, "dtype:uint": 40, "dtype:float": 30, "dtype:64bi
                "load:from_header": 50, "load:from_stream": 20, "load:from_zip": 20,
                "bigendian": 20, "dict": 50, "clone": 50, "clip": 30,
                "catchment-dict": 20, "catchment-dict:inlets": 10,
-               "nodata:nondefault": 40, "values:extreme": 20}
+               "nodata:nondefault": 40, "values:extreme": 20, "layout-variant": 30}
 
 DTYPES = [np.int8, np.int16, np.int32, np.int64, np.uint8, np.uint16, np.uint32,
           np.uint64, np.float16, np.float32, np.float64]
@@ -168,7 +170,14 @@ def run_case(ctx, case):
     if not same_scalar(gr.nodata, dtype(0)):
         ctx.tag("nodata:nondefault")
     ctx.tag("values:extreme")
-    gr.data = values.copy()
+    # the array is handed over in one of several memory layouts (saved files must not
+    # depend on it)
+    lay = ["C", "fortran", "rowstrided", "strided", "negstride", "readonly"][
+        int(case["seed"]) % 6]
+    pv = present(values, lay) if lay != "C" else None
+    if pv is not None:
+        ctx.tag("layout-variant")
+    gr.data = pv if pv is not None else values.copy()
     ctx.api("Grid.data=")
     okset = cells_equal(gr.data, values)
     ctx.check("setter.keeps-values", okset, f"Grid.data|setter-alters-values|{tagk}",
